@@ -298,6 +298,14 @@ func (f *faultyModify) Recv() (*spb.ModifyRequest, error) {
 		if m.Params != nil {
 			f.fibAck = m.Params.GetAckType() == spb.SessionParameters_RIB_AND_FIB_ACK
 		}
+		if id := m.ElectionId; id != nil && f.sr != nil {
+			if f.sr.maxSeen == nil {
+				f.sr.maxSeen = map[*server.Server]*spb.Uint128{}
+			}
+			if cur := f.sr.maxSeen[f.srv]; cur == nil || less128([2]uint64{cur.High, cur.Low}, [2]uint64{id.High, id.Low}) {
+				f.sr.maxSeen[f.srv] = proto.Clone(id).(*spb.Uint128)
+			}
+		}
 		fired := func() { simrt.Active().Fault("srv-fault:" + f.fault) }
 		switch f.fault {
 		case "accept-multi-field-messages":
@@ -404,7 +412,11 @@ func (f *faultyModify) Recv() (*spb.ModifyRequest, error) {
 			}
 		case "program-non-primary":
 			if len(m.Operation) > 0 {
-				if id, _ := f.srv.VerifElection(); id != nil {
+				id, _ := f.srv.VerifElection()
+				if seen := f.sr.maxSeen[f.srv]; seen != nil && (id == nil || less128([2]uint64{id.High, id.Low}, [2]uint64{seen.High, seen.Low})) {
+					id = seen
+				}
+				if id != nil {
 					// make this session the primary behind the client's back and stamp its operations accordingly
 					simrt.Active().Fault("srv-fault:" + f.fault)
 					f.swallowRes++
